@@ -9,7 +9,9 @@
 //                                                                           -> na <reason>          (combination does not exist)
 //   src:   file | stream | parsed | parsed-xerces | xerces-wrap | builder | builder-split | st-wrap
 //   sty:   stream | file | compiled | compiled-file | pi
-//   res:   file | ostream | callback | cdata | xerces-dom | source-tree
+//   res:   file | ostream | callback | cdata | xerces-dom | source-tree | xerces-frag | source-tree-frag
+//          (xerces-dom / source-tree: formatter on a Document as in the samples; -frag: the same formatters on a
+//           DocumentFragment of that document, the variant that can hold text at the top level)
 //   layer: cpp | c          (the command line program is driven by checks/c05.py: layer cli -> na here)
 // For res = xerces-dom / source-tree the result TREE is walked by this file (own serializer: no library serializer involved).
 // C05_MUTANT=<n> (compile time) plants a harness-side fault for the sensitivity demonstration; never set in the real build.
@@ -51,6 +53,7 @@
 #include <xalanc/XalanSourceTree/XalanSourceTreeParserLiaison.hpp>
 #include <xalanc/XalanSourceTree/XalanSourceTreeDOMSupport.hpp>
 #include <xalanc/XalanSourceTree/XalanSourceTreeDocument.hpp>
+#include <xalanc/XalanSourceTree/XalanSourceTreeDocumentFragment.hpp>
 #include <xalanc/XalanSourceTree/FormatterToSourceTree.hpp>
 
 using namespace xalanc;
@@ -121,9 +124,14 @@ struct SplittingHandler : public xercesc::ContentHandler
 {
     xercesc::ContentHandler* m_to;
     unsigned long m_events;
-    explicit SplittingHandler(xercesc::ContentHandler* to) : m_to(to), m_events(0) {}
+    bool m_split;
+    unsigned long m_calls, m_dropCall;      // (sensitivity mutant only) swallow the m_dropCall-th characters() call
+    explicit SplittingHandler(xercesc::ContentHandler* to, bool split = true) : m_to(to), m_events(0), m_split(split), m_calls(0), m_dropCall(0) {}
     virtual void characters(const XMLCh* const chars, const XMLSize_t length)
     {
+        ++m_calls;
+        if (m_to == 0 || m_calls == m_dropCall) return;
+        if (!m_split) { m_to->characters(chars, length); return; }
         XMLSize_t i = 0;
         while (i < length)
         {
@@ -134,16 +142,16 @@ struct SplittingHandler : public xercesc::ContentHandler
             i += n;
         }
     }
-    virtual void endDocument() { m_to->endDocument(); }
-    virtual void endElement(const XMLCh* const uri, const XMLCh* const localname, const XMLCh* const qname) { m_to->endElement(uri, localname, qname); }
-    virtual void ignorableWhitespace(const XMLCh* const chars, const XMLSize_t length) { m_to->ignorableWhitespace(chars, length); }
-    virtual void processingInstruction(const XMLCh* const target, const XMLCh* const data) { m_to->processingInstruction(target, data); }
-    virtual void setDocumentLocator(const xercesc::Locator* const locator) { m_to->setDocumentLocator(locator); }
-    virtual void startDocument() { m_to->startDocument(); }
-    virtual void startElement(const XMLCh* const uri, const XMLCh* const localname, const XMLCh* const qname, const xercesc::Attributes& attrs) { m_to->startElement(uri, localname, qname, attrs); }
-    virtual void startPrefixMapping(const XMLCh* const prefix, const XMLCh* const uri) { m_to->startPrefixMapping(prefix, uri); }
-    virtual void endPrefixMapping(const XMLCh* const prefix) { m_to->endPrefixMapping(prefix); }
-    virtual void skippedEntity(const XMLCh* const name) { m_to->skippedEntity(name); }
+    virtual void endDocument() { if (m_to != 0) m_to->endDocument(); }
+    virtual void endElement(const XMLCh* const uri, const XMLCh* const localname, const XMLCh* const qname) { if (m_to != 0) m_to->endElement(uri, localname, qname); }
+    virtual void ignorableWhitespace(const XMLCh* const chars, const XMLSize_t length) { if (m_to != 0) m_to->ignorableWhitespace(chars, length); }
+    virtual void processingInstruction(const XMLCh* const target, const XMLCh* const data) { if (m_to != 0) m_to->processingInstruction(target, data); }
+    virtual void setDocumentLocator(const xercesc::Locator* const locator) { if (m_to != 0) m_to->setDocumentLocator(locator); }
+    virtual void startDocument() { if (m_to != 0) m_to->startDocument(); }
+    virtual void startElement(const XMLCh* const uri, const XMLCh* const localname, const XMLCh* const qname, const xercesc::Attributes& attrs) { if (m_to != 0) m_to->startElement(uri, localname, qname, attrs); }
+    virtual void startPrefixMapping(const XMLCh* const prefix, const XMLCh* const uri) { if (m_to != 0) m_to->startPrefixMapping(prefix, uri); }
+    virtual void endPrefixMapping(const XMLCh* const prefix) { if (m_to != 0) m_to->endPrefixMapping(prefix); }
+    virtual void skippedEntity(const XMLCh* const name) { if (m_to != 0) m_to->skippedEntity(name); }
 };
 
 // ---------------------------------------------------------------------------------------------------------------------
@@ -333,7 +341,7 @@ static bool isOneOf(const std::string& v, const char* const* list)
 
 static const char* const SRC_FORMS[] = { "file", "stream", "parsed", "parsed-xerces", "xerces-wrap", "builder", "builder-split", "st-wrap", 0 };
 static const char* const STY_FORMS[] = { "stream", "file", "compiled", "compiled-file", "pi", 0 };
-static const char* const RES_FORMS[] = { "file", "ostream", "callback", "cdata", "xerces-dom", "source-tree", 0 };
+static const char* const RES_FORMS[] = { "file", "ostream", "callback", "cdata", "xerces-dom", "source-tree", "xerces-frag", "source-tree-frag", 0 };
 
 static void configureDomParser(xercesc::XercesDOMParser& p, xercesc::ErrorHandler& eh)
 {
@@ -381,6 +389,8 @@ static Outcome runCpp(const Request& rq)
     XalanSourceTreeParserLiaison resultLiaison;
     xercesc::DOMDocument* resultDom = 0;
     XalanSourceTreeDocument* resultTree = 0;
+    xercesc::DOMDocumentFragment* resultDomFrag = 0;
+    std::unique_ptr<XalanSourceTreeDocumentFragment> resultTreeFrag;
     std::unique_ptr<FormatterToXercesDOM> toDom;
     std::unique_ptr<FormatterToSourceTree> toTree;
     std::ostringstream ostream;
@@ -421,6 +431,18 @@ static Outcome runCpp(const Request& rq)
             reader->setLexicalHandler(b->getLexicalHandler());
             reader->setDTDHandler(b->getDTDHandler());
             reader->setErrorHandler(&thrower);
+#if C05_MUTANT == 1
+            // planted fault: the (unsplit) document builder form never delivers the last characters() event of the document
+            SplittingHandler dropper(b->getContentHandler(), false);
+            if (rq.src == "builder")
+            {
+                SplittingHandler counter(0, false);
+                reader->setContentHandler(&counter);
+                try { reader->parse(dMem); } catch (const ParseFailure&) {}
+                dropper.m_dropCall = counter.m_calls;
+                reader->setContentHandler(&dropper);
+            }
+#endif
             try { reader->parse(dMem); }
             catch (const ParseFailure& f) { o.rc = -2; o.err = f.msg; o.info = "own SAX2 parse failed"; t.setEntityResolver(0); return o; }
             parsed = b;
@@ -472,6 +494,20 @@ static Outcome runCpp(const Request& rq)
             toTree.reset(new FormatterToSourceTree(XalanMemMgrs::getDefaultXercesMemMgr(), resultTree));
             target.reset(new XSLTResultTarget(*toTree));
         }
+        else if (rq.res == "xerces-frag")
+        {
+            resultDom = xercesc::DOMImplementation::getImplementation()->createDocument();
+            resultDomFrag = resultDom->createDocumentFragment();
+            toDom.reset(new FormatterToXercesDOM(resultDom, resultDomFrag, 0));
+            target.reset(new XSLTResultTarget(*toDom));
+        }
+        else if (rq.res == "source-tree-frag")
+        {
+            resultTree = resultLiaison.createXalanSourceTreeDocument();
+            resultTreeFrag.reset(new XalanSourceTreeDocumentFragment(XalanMemMgrs::getDefaultXercesMemMgr(), *resultTree));
+            toTree.reset(new FormatterToSourceTree(resultTree, resultTreeFrag.get()));
+            target.reset(new XSLTResultTarget(*toTree));
+        }
         else if (rq.res == "callback")
         {
             // the transformer has callback overloads for (input, input), (input) and (parsed, compiled); the other pairings
@@ -519,10 +555,8 @@ static Outcome runCpp(const Request& rq)
         }
         else if (rq.res == "xerces-dom") walkXerces(resultDom, o.out);
         else if (rq.res == "source-tree") walkXalan(resultTree, o.out);
-#if C05_MUTANT == 1
-        // planted fault: the source-tree wrapper form loses the last character of the result
-        if (rq.src == "st-wrap" && !o.out.empty()) { size_t p = o.out.rfind("</"); if (p != std::string::npos && p > 0 && o.out[p - 1] != '>') o.out.erase(p - 1, 1); }
-#endif
+        else if (rq.res == "xerces-frag") walkXerces(resultDomFrag, o.out);
+        else if (rq.res == "source-tree-frag") walkXalan(resultTreeFrag.get(), o.out);
     }
     catch (const XSLException& e) { o.rc = -90; o.err = "EXC " + excText(e); }
     catch (const xercesc::DOMException& e) { o.rc = -93; o.err = "EXC DOMException " + u8(e.getMessage()); }
@@ -533,6 +567,7 @@ static Outcome runCpp(const Request& rq)
     catch (...) { o.rc = -92; o.err = "EXC unknown"; }
     toDom.reset();
     toTree.reset();
+    resultTreeFrag.reset();
     if (resultDom != 0) resultDom->release();
     if (rq.res == "file") unlink(outPath.c_str());
     {
